@@ -1513,7 +1513,9 @@ impl PeerConnection {
         // Update next_mid to avoid collisions with remote MIDs
         for section in &desc.media_sections {
             if let Ok(mid_val) = section.mid.parse::<u16>() {
-                self.inner.next_mid.fetch_max(mid_val + 1, Ordering::SeqCst);
+                self.inner
+                    .next_mid
+                    .fetch_max(mid_val.saturating_add(1), Ordering::SeqCst);
             }
         }
 
